@@ -93,6 +93,24 @@ CHECKS = {
               "accumulator is covered under C20."),
         technique="TLA+/TLC model checking of Batch + replay of enumerated batches into the real batch verifier/accumulator validated by a trace spec",
     ),
+    "C16": dict(
+        category="fault_enumeration",
+        text=("Decode.tla describes the decoders of MidnightVK, VerifyingKey, verifier parameters and the architecture "
+              "descriptor (Processed and RawBytes) and of a proof as machines over the REAL field maps extracted from "
+              "valid encodings; TLC enumerates every (object, field, class) scenario - boundary values of one-byte and "
+              "count fields, every point/scalar encoding class (other valid, identity, non-canonical, off-curve, outside "
+              "the subgroup, flag garbage), truncation at and inside every field, appended bytes - with the outcome "
+              "the machine reaches (there is no crash state). The harness runs every scenario against the real "
+              "decoders, then verifies a fixed valid proof and a proof of another circuit with whatever decoded, under "
+              "catch_unwind with the largest single allocation recorded; plus proof truncations / extensions / bit "
+              "flips / splices, unstructured flips and splices of every object and reads with the other format. "
+              "Decode_Trace consumes a line only if the outcome is an allowed value: invalid encodings must be "
+              "refused at decode, changed objects never verify, nothing panics or allocates beyond 64 MB."),
+        design_ref="DESIGN.md 4/C16",
+        note=("IR programs are covered under C18; proving keys / full parameter sets only under C17 (local artefacts); "
+              "a decoder that aborts or hangs kills its harness process and is reported from the missing outcome."),
+        technique="TLA+/TLC enumeration of decoder field/class scenarios over extracted layouts + replay validated by a trace spec",
+    ),
     "C17": dict(
         category="model_checking",
         text=("Lifecycle.tla identifies parameters by (secret, k) and keys by (circuit, k, secret) - never by thread "
